@@ -64,6 +64,8 @@ def make_cases(tier):
     light = lambda i, q: A.stanza(q["q"], [A.let(A.var("u%d" % j), A.cap(c["name"])) for j, c in enumerate(q["caps"]) if not c["name"].startswith("_")])
     cases += A.both_modes("c03big-3", A.file([light(1, pool[pair_q]), light(2, pool[pair_q]), light(3, pool[pair_q])]), big, visit=True)
     cases += A.both_modes("c03big-4", A.file([light(1, pool[pair_q]), light(2, pool[ident_q]), light(3, pool[pair_q]), light(4, pool[pair_q])]), big, visit=True)
+    # one stanza on a 300-statement source (more matches in progress than a fixed cursor limit of 64, 128 or 256 would keep)
+    cases += A.both_modes("c03wide-1", A.file([light(1, pool[pair_q])]), A.wide_source(), visit=True)
     # multi-stanza files (2-4 stanzas, repetitions allowed, shared capture names)
     nmulti = 60 if tier == "quick" else 1500
     for k in range(nmulti):
